@@ -28,27 +28,27 @@ Notation USpec := (USpec p).
 Lemma any_src_spec i U : USpec i U ->
   forall l c s stk s1 need,
     (forall x, In x l -> x < i) ->
-    Inv stk i s -> ctx_ok stk c -> TopOK c s ->
+    Inv stk i s -> ctx_ok stk c ->
     st (getn s i) <> Dirty ->
     any_src U c i l s = (s1, need) ->
-    Inv stk i s1 /\ TopOK c s1 /\ PullRel i stk None s s1 /\
+    Inv stk i s1 /\ PullRel i stk None s s1 /\
     (need = false ->
        st (getn s1 i) <> Dirty /\
        forall x, In x l -> memob x = true -> st (getn s1 x) = Clean).
 Proof.
-  intros HU l. induction l as [|x l IH]; intros c s stk s1 need Hl I C T Hnd Ha; cbn [any_src] in Ha.
-  - inversion Ha; subst. split; auto. split; auto. split; [apply PullRel_refl|].
+  intros HU l. induction l as [|x l IH]; intros c s stk s1 need Hl I C Hnd Ha; cbn [any_src] in Ha.
+  - inversion Ha; subst. split; auto. split; [apply PullRel_refl|].
     intros _. split; auto. intros x [].
   - destruct (U c x s) as [s2 ch] eqn:EU.
     assert (Hx : x < i) by (apply Hl; left; auto).
-    destruct (HU c x s stk i s2 ch Hx Hx I C T EU) as (I2 & T2 & P2 & _ & Hcl).
+    destruct (HU c x s stk i s2 ch Hx Hx I C EU) as (I2 & P2 & _ & Hcl).
     assert (P2' : PullRel i stk None s s2) by (eapply PullRel_weaken; [|exact P2]; lia).
     destruct (ch || nstate_eqb (st (getn s2 i)) Dirty) eqn:Ec.
-    + inversion Ha; subst. split; auto. split; auto. split; auto. discriminate.
+    + inversion Ha; subst. split; auto. split; auto. discriminate.
     + apply orb_false_elim in Ec as [-> Ed]. apply nstate_eqb_neq in Ed.
-      destruct (IH c s2 stk s1 need) as (I1 & T1 & P1 & Hn); auto.
+      destruct (IH c s2 stk s1 need) as (I1 & P1 & Hn); auto.
       { intros y Hy. apply Hl; right; auto. }
-      split; auto. split; auto. split; [eapply PullRel_trans; eauto|].
+      split; auto. split; [eapply PullRel_trans; eauto|].
       intros Hf. destruct (Hn Hf) as [Hd Hall]. split; auto.
       intros y [<-|Hy] Hm; auto.
       destruct (Hcl Hm) as [Hc2 _].
